@@ -57,6 +57,10 @@ def main():
     np.random.random_sample(int.from_bytes(__import__("os").urandom(1), "little") + 1)
     rec("many_components_spectral", Xc, None, n_neighbors=6, n_jobs=-1)
     rec("many_components_tswspectral", Xc, None, n_neighbors=6, n_jobs=1, init="tswspectral")
+    # init="pca" on a wide matrix (more than 500 rows, fewer than 10 rows per feature: scikit-learn's automatic solver choice then
+    # prefers a randomized solver, which must be seeded by the model's random_state and not by the process-specific global generator)
+    Xw = rc.normal(size=(640, 96)).astype(np.float32); Xw[:200] += 2
+    rec("pca_init_wide", Xw, Xw[:7] + np.float32(0.1), init="pca", n_jobs=-1, n_epochs=15)
     # components so far apart that every affinity between their centroids underflows to zero: the eigenproblem that places the
     # components is then completely degenerate (any orthonormal basis solves it); the choice must still be a function of the seed
     Xd = np.concatenate([rc.normal(size=(30, 4)) * 0.3 + c * 40 for c in range(5)]).astype(np.float32)
